@@ -502,18 +502,16 @@ Definition m_ext (mx : bool) (args : list val) : out :=
   {| o_res := match args with [] => RCond CArith | a :: rest => ext_loop (if mx then CLt else CGt) a rest end;
      o_args := args |}.
 
-(* ---- isqrt (pkg/cl/isqrt.go, after repo_fixes/C05-21): a bignum object goes through big.Int.Sqrt into a
-   FRESH big.Int (the unchanged code used the operand as the receiver and so overwrote it) and the result is a
-   bignum object whatever its size; a negative one makes math/big panic.  A fixnum goes through
-   math.Sqrt(float64 z): below 2^52 the conversion is exact and the correctly rounded root truncates to the
-   integer root; from 2^52 on the model declines to predict (RVal VInexact), and so it does for ratios.
-   Negative fixnums: arithmetic-error.  The operand is returned as it was. ---- *)
-Definition two52 : Z := 4503599627370496.
+(* ---- isqrt (pkg/cl/isqrt.go, after repo_fixes/C05-21, 23, 24): a fixnum goes through big.Int.Sqrt of a fresh
+   big.Int and comes back as a fixnum (the unchanged code took math.Sqrt of the float64, off by one from 2^53
+   on); a bignum object goes through big.Int.Sqrt into a FRESH big.Int (the unchanged code used the operand as
+   the receiver and so overwrote it) and the result is a bignum object whatever its size; a negative integer of
+   either representation is an arithmetic-error (the unchanged code let math/big panic on a negative bignum).
+   Ratios and floats (truncated float root) are not modelled.  The operand is returned as it was. ---- *)
 Definition m_isqrt (args : list val) : out :=
   match args with
-  | [VFix z] => {| o_res := if z <? 0 then RCond CArith else if z <? two52 then RVal (VFix (Z.sqrt z)) else RVal VInexact;
-                   o_args := args |}
-  | [VBig z] => {| o_res := if z <? 0 then RCond CFault else RVal (VBig (Z.sqrt z)); o_args := args |}
+  | [VFix z] => {| o_res := if z <? 0 then RCond CArith else RVal (VFix (Z.sqrt z)); o_args := args |}
+  | [VBig z] => {| o_res := if z <? 0 then RCond CArith else RVal (VBig (Z.sqrt z)); o_args := args |}
   | _ => {| o_res := RVal VInexact; o_args := args |}
   end.
 
